@@ -538,7 +538,7 @@ def gen_op(rng, spec, handles, nonlinear: bool):
     can_create = len(handles) < MAX_HANDLES
     kind = rng.weighted([("assign", 6), ("solve", 2), ("steady", 2), ("alter", 2), ("copy", 1.5 if can_create else 0),
                          ("pickle", 1.5 if can_create else 0), ("view", 1.5 if can_create else 0), ("desc", 0.8), ("tol", 0.5),
-                         ("logly", 0.9 if spec["log"] else 0), ("rtol", 0.3), ("bad", 0.4)])
+                         ("logly", 0.9 if (spec["log"] and spec["linear"]) else 0), ("rtol", 0.3), ("bad", 0.4)])
     if kind == "steady" and has_dups(m):
         kind = "solve"
     if kind == "assign":
@@ -607,7 +607,9 @@ def gen_op(rng, spec, handles, nonlinear: bool):
     if kind == "desc":
         return {"op": "desc", "h": h, "s": "d" + str(rng.randint(0, 99))}
     if kind == "logly":
-        # only the log variable `lv` is ever toggled (the AR variables may be negative): by name, or `False` for all loggables
+        # only the log variable `lv` is ever toggled (the AR variables may be negative): by name, or `False` for all loggables;
+        # only on LINEAR models: on a nonlinear one the iterative steady solver can then run into log(<=0) and grind through its
+        # whole iteration budget with NaNs (minutes per history)
         if rng.chance(0.3):
             return {"op": "logly", "h": h, "new": False, "names": []}
         return {"op": "logly", "h": h, "new": rng.chance(0.5), "names": ["lv"]}
